@@ -23,7 +23,23 @@ pub open spec fn qp_enum(m: Map<(usize, usize), F64>, e: Seq<((usize, usize), F6
     &&& forall|k: (usize, usize)| m.contains_key(k) ==> exists|j: int| 0 <= j < e.len() && (#[trigger] e[j]).0 == k
     &&& forall|i: int, j: int| 0 <= i < j < e.len() ==> (#[trigger] e[i]).0 != (#[trigger] e[j]).0
 }
+pub open spec fn lp_enum(m: Map<usize, F64>, e: Seq<(usize, F64)>) -> bool {
+    &&& forall|j: int| 0 <= j < e.len() ==> m.contains_key((#[trigger] e[j]).0) && m[e[j].0] == e[j].1
+    &&& forall|k: usize| m.contains_key(k) ==> exists|j: int| 0 <= j < e.len() && (#[trigger] e[j]).0 == k
+    &&& forall|i: int, j: int| 0 <= i < j < e.len() ==> (#[trigger] e[i]).0 != (#[trigger] e[j]).0
+}
+pub open spec fn lp_enum_ref(m: Map<usize, F64>, h: Seq<(&usize, &F64)>) -> bool {
+    &&& forall|j: int| 0 <= j < h.len() ==> m.contains_key(*(#[trigger] h[j]).0) && m[*h[j].0] == *h[j].1
+    &&& forall|k: usize| m.contains_key(k) ==> exists|j: int| 0 <= j < h.len() && *(#[trigger] h[j]).0 == k
+    &&& forall|i: int, j: int| 0 <= i < j < h.len() ==> *(#[trigger] h[i]).0 != *(#[trigger] h[j]).0
+}
 ''', 'qplib ObjSense + enumeration vocabulary')
+    vt = core.get_type('qplib/parser.rs', 'enum', 'VarType', asm.rules, keep_derives=('Clone', 'Copy', 'PartialEq', 'Eq'))
+    qf = core.get_type('qplib/parser.rs', 'struct', 'QplibFile', asm.rules, keep_derives=())
+    asm.extracted(vt['text'] + '// ProblemType (a tuple of three kind letters) is not read by the conversion: opaque here\n#[verifier::external_body] pub struct ProblemType { _p: u8 }\n' + qf['text']
+                  + '''// Option<&String>::cloned (T4)
+#[verifier::external_body] pub fn opt_cloned(o: Option<&String>) -> (r: Option<String>) ensures o is None ==> r is None, o is Some ==> r == Some(*o->Some_0) { o.cloned() }
+''', 'qplib VarType, QplibFile')
     asm.raw('} // mod lib\npub mod units {\n' + common.UNITS_USES + 'broadcast use super::lib::ax_pair_key_model;\n')
     asm.raw('''impl Zero for Quadratic {
     #[verifier::external_body] fn zero() -> Self { unimplemented!() }
@@ -34,7 +50,7 @@ pub open spec fn qp_enum(m: Map<(usize, usize), F64>, e: Seq<((usize, usize), F6
 }
 ''', 'assumed callee contract (Quadratic::is_zero)')
     asm.stubs.append(dict(unit='Zero::is_zero for Quadratic', proved_in='C02'))
-    for u in (qplib.to_quadratic(), qplib.wrap_function(), qplib.convert_sense()):
+    for u in (qplib.to_quadratic(), qplib.to_linear(), qplib.wrap_function(), qplib.convert_sense(), qplib.convert_dvars()):
         asm.unit(u)
     asm.raw('} // mod units\n')
     asm.guard(common.guard_fn('c19', 'broadcast use ax_pair_key_model;', uses='use super::lib::*;'), 'vacuity: axioms')
@@ -51,5 +67,5 @@ proof fn vacuity_pre(m: Map<(usize, usize), F64>, e: Seq<((usize, usize), F64)>)
         ],
         assumptions=common.A1,
         not_covered=['the section-by-section text reader (QplibFile::from_lines, type codes, counts, numbers, line numbers in errors): str code outside Verus and CBMC',
-                     'convert_objective default-b0 expansion, convert_constraints (izip/enumerate, format!-built names), to_linear (iterator map/collect), apply_infinity_threshold (closures over &mut), convert_dvars'],
+                     'convert_objective default-b0 expansion (Vec::retain, dense expansion), convert_constraints (format!-built names, two pushes per row), apply_infinity_threshold (closures over &mut): bounded stand-in only'],
     )
